@@ -38,7 +38,8 @@ CFGS = [{}, {}, {}, {"skipws": False}, {"ws": " "}, {"ws": " \t\n"}, {"autokwd":
 
 
 class CtxDict(dict):
-    """dict keyed by position that silently extends the key by the parser's whitespace context (what="ws") or by
+    """dict keyed by position that silently extends the key by the parser's whitespace context (what="ws": skipws, the
+    effective and the declared whitespace set, the eolterm flag) or by
     the flag that tells whether the parser is inside `_parse_comments` (what="comments")."""
 
     def __init__(self, parser, what="ws"):
@@ -49,7 +50,10 @@ class CtxDict(dict):
     def _k(self, pos):
         if self.what == "comments":
             return (pos, bool(getattr(self.parser, "in_parse_comments", False)))
-        return (pos, self.parser.skipws, self.parser._ws)
+        # the whole whitespace context: an `eolterm` repetition is a third way to switch it (the `ws` setter strips the
+        # newlines while `eolterm` is on, a rule modifier entered below restores / strips according to it)
+        p = self.parser
+        return (pos, p.skipws, p._ws, getattr(p, "_real_ws", None), bool(getattr(p, "_eolterm", False)))
 
     def __getitem__(self, pos):
         return dict.__getitem__(self, self._k(pos))
